@@ -26,7 +26,7 @@ ANCHORS = ["coxeter.shapes.convex_polygon:ConvexPolygon.distance_to_surface",
 REQUIRED_MONITORS = ["Circle.distance_to_surface", "Ellipse.distance_to_surface", "ConvexPolygon.distance_to_surface",
                      "ConvexSpheropolygon.distance_to_surface", "argument-unchanged"]
 REQUIRED_CLASSES = ["poly:regular", "poly:irregular", "poly:axis-aligned", "sphero:r=0", "sphero:r>0", "Ellipse", "Circle",
-                    "angles:ndarray:f", "angles:ndarray:i", "angles:list:int", "angles:list:float", "angles:tuple:float", "history:aged-object", "curved:extreme-units", "normal:+z", "normal:-z"]
+                    "angles:ndarray:f", "angles:ndarray:i", "angles:list:int", "angles:list:float", "angles:tuple:float", "history:aged-object", "curved:extreme-units", "normal:+z", "normal:-z", "angles:2-D"]
 
 
 def ncases(tier):
@@ -238,11 +238,15 @@ def run_case(i, rng, rec, tier, state):
     ints = rng.integers(-12, 13, size=12)
     forms = [th, th[(th >= 0) & (th < 2 * np.pi)], th[:1], ints.astype(np.int64), ints.astype(np.int32),
              [int(v) for v in ints[:6]], th[:16].tolist(), tuple(th[16:24].tolist())] + [a for _, a in points.layouts(th[24:48])]
+    # "an array of angles" may have more than one axis (a grid of directions), in C order or as the transpose of one
+    grid = th[48:72].reshape(4, 6).copy() if len(th) >= 72 else th[:12].reshape(3, 4).copy()
+    forms += [grid, grid.T, np.asfortranarray(grid), th[:8].reshape(2, 2, 2).transpose(2, 0, 1)]
+    rec.cls("angles:2-D")
     for arr in forms:
         rec.cls("angles:" + type(arr).__name__ + (":" + arr.dtype.kind if isinstance(arr, np.ndarray) else
                                                   ":" + type(arr[0]).__name__ if len(arr) else ""))
         try:
-            s.distance_to_surface(arr.copy() if isinstance(arr, np.ndarray) else arr)
+            s.distance_to_surface(arr)       # as it is (a copy would be C-contiguous); the monitor checks it comes back unchanged
         except Exception as e:
             rec.violation(cls + ".distance_to_surface", f"{cls}.distance_to_surface/raises-{type(e).__name__}", dict(info, exc=repr(e)[:300]))
             break
